@@ -1,5 +1,6 @@
 import LibInj.Sqli.Check
 import LibInj.Proofs.QuoteShift
+import LibInj.Proofs.QuoteFold
 set_option linter.unusedSimpArgs false
 /-! # C12 — IsSQLi equals the ordered disjunction of its documented parsing contexts
 
@@ -79,11 +80,28 @@ theorem isSQLi_none_fires (s : Bytes) (hs : s ≠ []) (a b c d e : Bool × Bytes
   rw [isSQLi_cascade s hs a b c d e ha hb hc hd he]
   simp [cascade, h.1, h.2.1, h.2.2.1, h.2.2.2.1, h.2.2.2.2]
 
-/-- the quote-shift relation of C12, full statement (checked by the oracle, not yet a theorem) -/
+/-- the quote-shift relation of C12 on fingerprints, full statement -/
 def quote_shift_statement : Prop :=
   ∀ (s : Bytes) (q : UInt8) (d : Nat), s ≠ [] → (q = 39 ∨ q = 34) → (d = flagAnsi ∨ d = flagMysql) →
     ∀ st1 st2, fingerprint s ((if q = 39 then flagQuoteSingle else flagQuoteDouble) ||| d) = .ok st1 →
       fingerprint (q :: s) (flagQuoteNone ||| d) = .ok st2 → st1.fingerprint = st2.fingerprint
+
+/-- **C12, quote shift, fingerprints.** Reading `s` as the continuation of a quoted string and reading
+`quote ++ s` as-is give the same fingerprint, in both comment modes: after the first token the as-is
+scanner state is the image of the in-quote state under `phiS` (input one byte longer, offsets + 1, the
+virtual opening quote made real), and `tokenize`, every fold rule, the loops, the empty-backtick
+re-categorisation and the fingerprint construction commute with that map (`Proofs/QuoteFold`). -/
+theorem quote_shift_fingerprint : quote_shift_statement := by
+  intro s q d hs hq hd st1 st2 h1 h2
+  have key : (fingerprint (q :: s) (flagQuoteNone ||| d)).map (·.fingerprint) =
+      (fingerprint s ((if q = 39 then flagQuoteSingle else flagQuoteDouble) ||| d)).map (·.fingerprint) := by
+    rcases hq with rfl | rfl <;> rcases hd with rfl | rfl
+    · exact fingerprint_quote s hs 39 _ _ (Or.inl rfl) (by decide) (by decide) (by decide) (by decide) (by decide) (by decide)
+    · exact fingerprint_quote s hs 39 _ _ (Or.inl rfl) (by decide) (by decide) (by decide) (by decide) (by decide) (by decide)
+    · exact fingerprint_quote s hs 34 _ _ (Or.inr rfl) (by decide) (by decide) (by decide) (by decide) (by decide) (by decide)
+    · exact fingerprint_quote s hs 34 _ _ (Or.inr rfl) (by decide) (by decide) (by decide) (by decide) (by decide) (by decide)
+  rw [h1, h2] at key
+  exact (Except.ok.inj key).symm
 
 /-- **C12, quote shift, tokens.** -/
 theorem quote_shift_tokens (x : Bytes) (hx : x ≠ []) (q : UInt8) (d : Nat) (hq : q = 39 ∨ q = 34)
